@@ -19,13 +19,13 @@ func TestMain(m *testing.M) {
 	run = ev.Start("C08", "exploration",
 		"rapid draws a BUILD.dawn from a grammar of module-level items - constants of every value class, deeply nested constants, lists/dicts/sets of 1001 "+
 			"and 2500 elements, self-containing lists, plain / directly recursive / mutually recursive helpers, default arguments, 1- and 2-level closures, "+
-			"nested defs, lambdas, comprehensions, for/while/if code, universals, globals bound to builtins, and predeclared values (the vf module, host, "+
+			"nested defs, helpers with every parameter kind (defaults, *args, mandatory and optional keyword-only, **kwargs), lambdas, comprehensions, for/while/if code, universals, globals bound to builtins, and predeclared values (the vf module, host, "+
 			"package, a Cache(), a flag value, another target, path/label/glob/contains builtins) - and a target function that references a generated subset "+
 			"of them; a second target in another package references its own items. Oracle, each step in a fresh child process with a 64 MB stack limit: "+
 			"(1) Load+Run exits normally and no error mentions the function environment; (2) a second process on the identical text evaluates nothing, "+
 			"neither does one on a copy of text and state at another absolute path; "+
 			"(3) after one generated mutation of something the target references (a constant, a leaf deep inside a collection, an element of a big "+
-			"collection, helper code, a default, a captured value, a called universal, a global rebound to another builtin) a third process re-evaluates "+
+			"collection, helper code, a default, a captured value, a helper's parameter list (star removed, parameters renamed or reordered so that the same call returns something else), a called universal, a global rebound to another builtin) a third process re-evaluates "+
 			"the target, and after a mutation of something only the other package's target references it does not. Non-trivial = the target uses recursion, "+
 			"a closure, a default, a nested def, a collection > 1000, cyclic data or a predeclared module. Distinct by program text.",
 		"programs <= ~60 lines; 'every kind of predeclared value' means the kinds dawn predeclares plus the harness module",
@@ -48,7 +48,7 @@ type Case struct {
 	MutOther bool   `json:"mutother"` // mutate an item of //p2 instead (must not re-run t)
 }
 
-var hard = map[string]bool{"closure-pair": true, "wrapped-twice": true, "recursive": true, "mutual": true, "closure": true, "closure2": true, "default": true, "nested": true, "biglist": true, "bigdict": true, "bigset": true, "cyclic": true,
+var hard = map[string]bool{"signature": true, "kwonly": true, "varargs": true, "closure-pair": true, "wrapped-twice": true, "recursive": true, "mutual": true, "closure": true, "closure2": true, "default": true, "nested": true, "biglist": true, "bigdict": true, "bigset": true, "cyclic": true,
 	"pre-vf": true, "pre-cache": true, "pre-host": true, "pre-os": true}
 
 // render returns definition text and the use expression of item i (with name suffix sfx).
@@ -91,6 +91,17 @@ func (it Item) render(i int, sfx string, mutated bool) (def, use string) {
 	case "wrapped-twice":
 		// one wrapper applied twice around a helper; the mutation changes the helper
 		return fmt.Sprintf("def hw%s(x):\n    return [x, %s]\ndef wrap%s(f):\n    def w(x):\n        return f(x)\n    return w\nst%s = wrap%s(wrap%s(hw%s))\n", n, k, n, n, n, n, n), "st" + n + "(1)"
+	case "kwonly":
+		// a helper with a mandatory keyword-only parameter
+		return fmt.Sprintf("def kw%s(a, *, c):\n    return [a, c, %s]\n", n, k), "kw" + n + "(1, c=2)"
+	case "varargs":
+		// every parameter kind at once
+		return fmt.Sprintf("def va%s(a, b=%s, *args, c, d=5, **kw):\n    return [a, b, args, c, d, kw]\n", n, k), "va" + n + "(1, c=3, z=4)"
+	case "signature":
+		// K = "parameters|body|call arguments": the mutation changes the parameter list (and maybe the names
+		// used in the body) so that the same call returns something else
+		f := strings.SplitN(k, "|", 3)
+		return fmt.Sprintf("def sg%s(%s):\n    %s\n", n, f[0], f[1]), "sg" + n + "(" + f[2] + ")"
 	case "nested":
 		return fmt.Sprintf("def ne%s(x):\n    def sub(y):\n        return [y, %s]\n    return sub(x)\n", n, k), "ne" + n + "(1)"
 	case "lambda":
@@ -308,7 +319,16 @@ func exec(c Case) (v ev.Verdict) {
 	return v
 }
 
-var kinds = []string{"closure-pair", "wrapped-twice", "const", "deepconst", "func", "recursive", "mutual", "default", "closure", "closure2", "nested", "lambda", "compr", "loop", "universal", "builtin-global",
+// signature mutations: same call, other result
+var sigPairs = [][2]string{
+	{"*a|return a|1", "a|return a|1"},                                              // (1,) vs 1
+	{"a, *b|return [a, b]|1, 2", "a, b|return [a, b]|1, 2"},                        // [1, (2,)] vs [1, 2]
+	{"a, b|return [a, b]|a=1, b=2", "b, a|return [b, a]|a=1, b=2"},                 // [1, 2] vs [2, 1]
+	{"a, b=2, c=3|return [a, b, c]|1, c=5", "a, c=2, b=3|return [a, c, b]|1, c=5"}, // [1,2,5] vs [1,5,3]
+	{"a, *, c=2|return [a, c]|1", "a, *, c=3|return [a, c]|1"},
+}
+
+var kinds = []string{"closure-pair", "wrapped-twice", "signature", "kwonly", "varargs", "const", "deepconst", "func", "recursive", "mutual", "default", "closure", "closure2", "nested", "lambda", "compr", "loop", "universal", "builtin-global",
 	"biglist", "bigdict", "bigset", "biginline", "cyclic", "pre-vf", "pre-host", "pre-package", "pre-cache", "pre-flag", "pre-builtins", "recursive", "closure", "const"}
 
 var pairs = [][2]string{{"7", "8"}, {"300", "65580"}, {"256", "257"}, {"65535", "65536"}, {"\"a\"", "\"b\""}, {"(1, 2)", "(1, 3)"}, {"[1, 300]", "[1, 301]"}, {"1.5", "2.5"}, {"None", "False"}, {"{\"k\": 1}", "{\"k\": 2}"}, {"b\"x\"", "b\"y\""}, {"12345678901234567890", "12345678901234567891"}}
@@ -322,6 +342,9 @@ func genItem(t *rapid.T, label string) Item {
 		it.K, it.K2 = p[0], p[1]
 	case "builtin-global":
 		p := rapid.SampledFrom([][2]string{{"str", "repr"}, {"len", "str"}, {"repr", "type"}}).Draw(t, "bg")
+		it.K, it.K2 = p[0], p[1]
+	case "signature":
+		p := rapid.SampledFrom(sigPairs).Draw(t, "sig")
 		it.K, it.K2 = p[0], p[1]
 	case "pre-vf", "pre-host", "pre-package", "pre-os", "pre-cache", "pre-flag", "pre-builtins":
 		// no mutation
